@@ -970,3 +970,49 @@ PROPERTIES["C05"] = {
             "VerifSyntaxCheck). Non-trivial: the input contains a node body marker.",
     "assumptions": ["'syntactically valid' = the generated ANTLR lexer/parser report no error, consume the whole input and find >= 1 node per reader"],
 }
+
+
+# ------------------------------------------------------------------ concurrent (C18)
+import os as _os
+_RACE = _os.path.join(_os.path.dirname(_os.path.dirname(_os.path.abspath(__file__))), "harness", "bin", "verifharness-race")
+
+
+def concurrent_projection(line):
+    res = sexp.parse(line)
+    if tag(res) != "all":
+        return line
+    proj = runner_projection(flow_view)
+    return sexp.dump([sexp.parse(proj(sexp.dump(r))) if tag(r) == "res" else r for r in res[1:]])
+
+
+def concurrent_oracle(case, obs, exp):
+    if tag(obs) in ("CRASH", "HARNESS-PANIC"):
+        return "violation", "the process died while runners were created and driven concurrently (a data race reported by the race detector ends the process)"
+    if tag(obs) == "all":
+        for i, r in enumerate(obs[1:]):
+            if tag(r) == "panic":
+                return "violation", "goroutine %d panicked" % i
+        pe = sexp.parse(concurrent_projection(sexp.dump(exp)))
+        po = sexp.parse(concurrent_projection(sexp.dump(obs)))
+        for i, (a, b) in enumerate(zip(pe, po)):
+            if a != b:
+                return "violation", "runner %d driven concurrently with %d others does not produce its solo trace" % (i, len(po) - 1)
+    return "unknown", "no race, no panic, traces equal the solo traces"
+
+
+def concurrent_features(case):
+    k = len(case) - 1
+    return sexp.dump([c[7] for c in case[1:]]), k >= 4, ["goroutines=%d" % k]
+
+
+FAMILIES["concurrent"] = {"oracle": concurrent_oracle, "features": concurrent_features, "project": concurrent_projection,
+                          "shrink": lambda c: [[c[0]] + r for r in drop_each(c[1:])] if len(c) > 3 else [],
+                          "binary": _RACE, "env": {"GORACE": "halt_on_error=1", "VERIF_WORKERS": "2"}}
+PROPERTIES["C18"] = {
+    "families": [("concurrent", 14, 300)],
+    "rule": "groups of 2, 4, 8 or 16 (thorough: up to 32) independent programs (flow generator with random built-ins); each "
+            "goroutine parses its own script, creates its own runner and drives it, all released by one start barrier, "
+            "in a binary built with the race detector (GORACE=halt_on_error=1: a reported race ends the process and is a "
+            "violation); every goroutine's trace must equal the model's solo trace. Non-trivial: >= 4 goroutines.",
+    "assumptions": ["the race detector only sees the interleavings that actually happened"],
+}
